@@ -59,6 +59,10 @@ def load_units():
                         uv['variant_of'] = u['name']
                         if v.get('probes'):
                             uv['probes'] = list(u.get('probes', [])) + list(v['probes'])
+                        # a variant may override any other unit key (unwindset, bound, timeout, tier ...)
+                        for k2, v2 in v.items():
+                            if k2 not in ('suffix', 'defines', 'probes'):
+                                uv[k2] = v2
                         units.append(uv)
                 else:
                     units.append(u)
@@ -445,9 +449,12 @@ def run_unit(unit, tier, keep=False, verbose=False):
             cmd += ['--sat-solver', 'cadical']
         elif solver in ('z3', 'cvc5'):
             cmd += ['--' + solver]
-        if unit.get('only'):
+        if unit.get('only') or unit.get('unchecked'):
             # control-only unit: ask CBMC only for the obligations this unit attributes (same formula, far fewer goals)
-            props = list_properties(gb2, checks + unit.get('cbmc_flags', []) + ['--unwind', str(unit.get('unwind', 70)), '--unwinding-assertions', '--object-bits', str(obits)] + (['--unwindset', ','.join(uws)] if uws else []), scratch)
+            # 'unchecked': [{key: regex on the obligation key, line_match: regex on the source line, reason}] = single
+            # generated obligations of a class DESIGN section 5 lists as unchecked; left out of the solver's goals,
+            # kept in the log, attributed to no property
+            props = list_properties(gb2, checks + unit.get('cbmc_flags', []) + ['--unwind', str(unit.get('unwind', 70)), '--unwinding-assertions', '--object-bits', str(obits)] + (['--unwindset', ','.join(uws)] if uws else []) + ([] if unit.get('dfcc', True) else ['--drop-unused-functions']), scratch)
             if props is None:
                 res['status'] = 'UNDECIDED'
                 res['why'] = 'cannot list properties'
@@ -457,10 +464,12 @@ def run_unit(unit, tier, keep=False, verbose=False):
                 f0, c0 = classify(n0)
                 if c0 == 'postcondition':
                     npost0[f0] = npost0.get(f0, 0) + 1
-            pats = [re.compile(x) for x in unit['only']]
+            pats = [re.compile(x) for x in unit.get('only', ['.'])]
             sel = []
             for n0, d0, sl0 in props:
                 o0 = obligation_record(dict(unit, _npost=npost0), {'property': n0, 'description': d0, 'sourceLocation': sl0, 'status': 'UNKNOWN'})
+                if is_unchecked(unit, o0['key'], sl0):
+                    continue
                 if any(p.search(o0['key']) for p in pats) or o0['class'] == 'unwind':
                     sel.append(n0)
             if not sel:
@@ -518,10 +527,10 @@ def run_unit(unit, tier, keep=False, verbose=False):
         # control-only units: obligations outside the unit's subject (generated memory checks, callee
         # preconditions about buffer shapes, contract-library internals) are generated by CBMC but belong to
         # the companion memory-safety unit; they are kept in the log and attributed to no property here
-        if unit.get('only'):
-            pats = [re.compile(x) for x in unit['only']]
+        if unit.get('only') or unit.get('unchecked'):
+            pats = [re.compile(x) for x in unit.get('only', ['.'])]
             for o in obs:
-                if not any(p.search(o['key']) for p in pats):
+                if not any(p.search(o['key']) for p in pats) or is_unchecked(unit, o['key'], {'file': o.get('file'), 'line': o.get('line')}):
                     o['props'] = []
                     o['unattributed'] = True
         res['obligations'] = obs
@@ -580,6 +589,24 @@ def run_unit(unit, tier, keep=False, verbose=False):
             # traces were already loaded in memory
             shutil.rmtree(scratch, ignore_errors=True)
 
+
+
+def is_unchecked(unit, key, sl):
+    if os.environ.get('VERIF_CHECK_UNCHECKED'):      # development: check the excluded obligations too
+        return False
+    for e in unit.get('unchecked', []):
+        if not re.search(e['key'], key):
+            continue
+        f = sl.get('file') or ''
+        if f and not os.path.isabs(f):
+            f = os.path.join(sl.get('workingDirectory', '') or '', f)
+        try:
+            line = open(f).read().splitlines()[int(sl.get('line') or 0) - 1]
+        except Exception:
+            line = ''
+        if re.search(e.get('line_match', '.'), line):
+            return True
+    return False
 
 
 def list_properties(gb, flags, scratch):
@@ -881,6 +908,8 @@ def assumption_scan(unit):
         out.append('functions %s extracted verbatim from %s on every run (rest of the file not in this unit)' % (','.join(ex['functions']), ex['file']))
     for c in unit.get('drop_checks', []):
         out.append('check class disabled in %s: %s' % (unit['name'], c))
+    for e in unit.get('unchecked', []):
+        out.append('unit %s: generated obligations %s on source lines matching %s are NOT checked and attributed to no property: %s' % (unit['name'], e['key'], e.get('line_match', '.'), e.get('reason', '')))
     if unit.get('only'):
         out.append('unit %s attributes only obligations matching %s; every other generated obligation of this unit is the subject of its companion memory-safety unit and is not counted here' % (unit['name'], unit['only']))
     return out
